@@ -92,7 +92,33 @@ def w_plain():
     return build, run
 
 
+def w_format():
+    """functions that lean on interpreter state a thread may not share
+    (decimal context, locale): ties and long numbers through TEXT / ROUND"""
+    spec = {'sheets': {'S': {
+        'A1': 2.5, 'B1': 0.125, 'C1': 1234.5, 'D1': 1e25, 'E1': 7.5,
+        'A2': '=TEXT(A1,"0")', 'B2': '=TEXT(B1,"0.00")',
+        'C2': '=TEXT(C1,"#,##0")', 'D2': '=TEXT(D1,"0.0000")',
+        'E2': '=TEXT(E1,"0")&ROUND(A1,0)&ROUND(B1,2)',
+        'A3': '=A2&B2&C2&LEN(D2)&E2', 'B3': '=FIXED(C1,0)&DOLLAR(A1,0)'}}}
+
+    def build():
+        return compile_spec(spec)
+
+    def run(model):
+        return [models_safe(model, 'S!A3'), models_safe(model, 'S!B3')]
+    return build, run
+
+
+def models_safe(model, addr):
+    try:
+        return model.evaluate(addr)
+    except Exception as exc:        # noqa
+        return ('raises', exc_key(exc))
+
+
 WORKLOADS = {
+    'format': w_format(),
     'iter-3': w_iter(3, 1e-12, 1.0),
     'iter-8': w_iter(8, 1e-12, 5.0),
     'iter-tol': w_iter(50, 0.05, 3.0),
@@ -101,7 +127,8 @@ WORKLOADS = {
 }
 PAIRS = [('iter-3', 'iter-8'), ('iter-8', 'iter-3'), ('iter-3', 'iter-tol'),
          ('iter-tol', 'cse'), ('cse', 'iter-3'), ('cse', 'cse'),
-         ('plain', 'iter-8'), ('iter-3', 'plain'), ('cse', 'plain')]
+         ('plain', 'iter-8'), ('iter-3', 'plain'), ('cse', 'plain'),
+         ('format', 'plain')]
 
 
 def warm_up():
@@ -272,6 +299,33 @@ def check_schedule(rec, pair, warm, schedule):
 
 # -- public operations as first pycel call of a new thread --------------------
 
+def check_thread_independence(rec):
+    """every workload gives on a brand-new thread what it gives on the
+    thread that imported the library (and the other way round)"""
+    for name, (build, run) in WORKLOADS.items():
+        case = dict(kind='main-vs-thread', workload=name)
+        rec.case(key=('main-vs-thread', name), nontrivial=True,
+                 labels=('main-vs-thread',), sample=case)
+        box = {}
+
+        def on_thread():
+            try:
+                box['result'] = run(build())
+            except Exception as exc:       # noqa
+                box['result'] = ('raises', exc_key(exc))
+        worker = threading.Thread(target=on_thread)
+        worker.start()
+        worker.join()
+        try:
+            here = run(build())
+        except Exception as exc:
+            here = ('raises', exc_key(exc))
+        if repr(here) != repr(box['result']):
+            rec.fail(f'main-vs-thread:{name}', case,
+                     f'workload {name}: {here!r} on the thread that loaded '
+                     f'the library, {box["result"]!r} on a new thread')
+
+
 def check_first_call(rec):
     from pycel.excelcompiler import ExcelCompiler
     spec = {'sheets': {'S': {'A1': 1, 'B1': 2, 'A2': '=SUM(A1:B1)',
@@ -355,6 +409,7 @@ def shards(tier, seed):
 
 def run_shard(shard, rec):
     if shard['kind'] == 'first-call':
+        check_thread_independence(rec)
         check_first_call(rec)
     elif shard['kind'] == 'jk':
         pair, warm = tuple(shard['pair']), shard['warm']
@@ -383,6 +438,9 @@ def run_shard(shard, rec):
 
 
 def replay(case, rec):
+    if isinstance(case, dict) and case.get('kind') == 'main-vs-thread':
+        check_thread_independence(rec)
+        return
     if isinstance(case, dict) and case.get('kind') == 'first-call':
         check_first_call(rec)
         return
